@@ -14,7 +14,7 @@ def vmap(kvs):
 
 
 def srcs(ss):
-    return clist('(%s, %s)' % (cstr(s['dir']), 'V%d' % s['ver']) for s in (ss or []))
+    return clist('(%s, %s)' % (cstr(s['dir']), 'None' if s['ver'] is None else '(Some V%d)' % s['ver']) for s in (ss or []))
 
 
 def run(ctx):
